@@ -37,6 +37,14 @@ inductive Beh where
   | atMost (k : Nat)     -- at most `k` of them
   | notFound             -- a single NOT_FOUND entry
   | invalid              -- a single INVALID entry
+  /-- (S9) the task completes with `Ok(vec![])`: an empty but successful response.  The real
+      client never produces it (`decode_and_verify_responses` turns an empty answer into
+      `InvalidResponse`); `HeaderSession::run` nevertheless has a path for it (nothing stored,
+      the whole request rescheduled), which only a foreign client / mock can reach. -/
+  | emptyOk
+  /-- (S9) the responder is dropped without an answer (the worker died): `rx.await?` gives a
+      non-HeaderEx `P2pError`, `run` returns it at once -/
+  | dropped
   deriving DecidableEq, Repr
 
 /-- the peer delivers at least one of the requested headers it holds -/
@@ -44,6 +52,13 @@ def Beh.progressing : Beh → Bool
   | .full => true
   | .atMost k => decide (1 ≤ k)
   | _ => false
+
+/-- the behaviour is one of the header-ex client's (a peer's answer run through `is_valid` and
+    `decode_and_verify_responses`), not one of the two S9 additions that bypass the client -/
+def Beh.ofClient : Beh → Bool
+  | .emptyOk => false
+  | .dropped => false
+  | _ => true
 
 structure Net where
   /-- the peers hold heights `1..=chainLen` -/
@@ -65,6 +80,8 @@ def peerResps (net : Net) (b : Beh) (h a : Nat) : List Resp :=
   match b with
   | .notFound => notFound
   | .invalid => [{ status := 0, decoded := none }]
+  | .emptyOk => []     -- not consulted: `answer` bypasses the client
+  | .dropped => []     -- not consulted
   | .full => if avail = 0 then notFound
       else (List.range' h avail).map (fun x => { status := 1, decoded := some (chainHdr x) })
   | .atMost k => if min avail k = 0 then notFound
@@ -76,6 +93,14 @@ def clientAnswer (hashSize : Nat) (fixedClient : Bool) (net : Net) (b : Beh) (h 
   let req : Request := { data := .origin h, amount := a }
   if !isValid hashSize req then .err .invalidRequest
   else decodeAndVerifyG fixedClient req (peerResps net b h a)
+
+/-- how the task of request `(h, a)` completes: `none` = a non-HeaderEx error (responder dropped),
+    `some o` = `Ok(headers)` / `Err(P2pError::HeaderEx(_))` as `o` says -/
+def answer (hashSize : Nat) (fixedClient : Bool) (net : Net) (b : Beh) (h a : Nat) : Option Outcome :=
+  match b with
+  | .dropped => none
+  | .emptyOk => some (.ok [])
+  | _ => some (clientAnswer hashSize fixedClient net b h a)
 
 inductive Out where
   | ok (hs : List Hdr) (steps : Nat)
@@ -97,10 +122,11 @@ def drive (hashSize : Nat) (fixedClient : Bool) (net : Net) : Nat → Nat → St
     else
       let idx := (cyc net.order j 0) % s.tasks.length
       let t := s.tasks.getD idx (0, 0)
-      match clientAnswer hashSize fixedClient net (cyc net.beh j .full) t.1 t.2 with
-      | .ok hs => drive hashSize fixedClient net fuel (j + 1) (step s (.ok t.1 t.2 hs))
-      | .err _ => drive hashSize fixedClient net fuel (j + 1) (step s (.err t.1 t.2))
-      | .panic => .panic
+      match answer hashSize fixedClient net (cyc net.beh j .full) t.1 t.2 with
+      | some (.ok hs) => drive hashSize fixedClient net fuel (j + 1) (step s (.ok t.1 t.2 hs))
+      | some (.err _) => drive hashSize fixedClient net fuel (j + 1) (step s (.err t.1 t.2))
+      | some .panic => .panic
+      | none => drive hashSize fixedClient net fuel (j + 1) (step s (.fatal t.1 t.2))
 
 /-- `ExtendedHeader::verify_adjacent_range`: empty is fine; otherwise the first header follows
     `from`, heights are consecutive, and every link verifies (`sameChain`) -/
